@@ -13,7 +13,7 @@
    NOT PROVED: that equality of two invocations persists through rebuild, that slot sets only shrink,
    and the direction of the live-class / slot / symmetry components.  These are decided per run, after
    every operation, on the implementation and against the model. *)
-From SE Require Import EGraph.Model EGraph.ModelMachine EGraph.ModelFacts.
+From SE Require Import EGraph.Model EGraph.ModelMachine EGraph.ModelFacts EGraph.UnionFindFacts EGraph.InvariantFacts.
 From Coq Require Import Lia.
 
 Theorem C13_add_alloc_monotone : forall t s a s', add_expr t s = Ok (a, s') ->
@@ -62,3 +62,21 @@ Print Assumptions C13_history_alloc_monotone.
 Definition C13_eq_persists_full : Prop :=
   forall terms ops hs s hs' s' a b,
     run_ops terms ops hs s = Ok (hs', s') -> eg_eq s a b = Ok true -> eg_eq s' a b = Ok true.
+
+(* old handles stay valid: canonicalisation of an invocation of an allocated id never fails and never runs out of
+   fuel in any reachable state (EGraph/UnionFindFacts.v: the union-find of every reachable state is ranked) *)
+Theorem C13_old_handles_canonicalise : forall terms ops hs s a,
+  run_ops terms ops [] empty_egraph = Ok (hs, s) -> (N.to_nat (aid a) < List.length (unionfind s))%nat ->
+  exists b, find_applied_id s a = Ok b.
+Proof. intros terms ops hs s a H Ha. apply find_applied_id_ok; [eapply uf_ok_reachable; exact H | exact Ha]. Qed.
+Print Assumptions C13_old_handles_canonicalise.
+
+(* equality is reflexive and symmetric (hence a handle stays equal to itself) on every insertion-only state;
+   for states with unions this needs the slot invariant uf_slots_ok, whose preservation by unions is not proved *)
+Theorem C13_eq_reflexive_symmetric_insertion_only : forall terms ops hs s,
+  adds_only ops -> run_ops terms ops [] empty_egraph = Ok (hs, s) ->
+  uf_ok s /\ uf_slots_ok s /\
+  (forall a, covers s a -> eg_eq s a a = Ok true) /\
+  (forall a b, covers s a -> covers s b -> exists x, eg_eq s a b = Ok x /\ eg_eq s b a = Ok x).
+Proof. exact insertion_only_invariants. Qed.
+Print Assumptions C13_eq_reflexive_symmetric_insertion_only.
